@@ -181,6 +181,23 @@ def pairAt (sched : Nat → Dir) (p0 : St × St) : Nat → St × St
   | 0 => p0
   | n + 1 => xstep (pairAt sched p0 n) (sched n)
 
+/-! ### Send interval (jitter.go) -/
+
+def minJitter : Nat := 0
+def minJitterDetectMult1 : Nat := 10
+def maxJitter : Nat := 25
+
+/-- the percentage a generator returning `pct` yields when asked for `[lo, hi)` -/
+def clampPct (pct lo hi : Nat) : Nat := if pct < lo then lo else if hi ≤ pct then hi - 1 else pct
+
+/-- `computeInterval(transmitInterval, detectMult, gen)` in ns; `none` = the function panics
+(`transmitInterval <= 0` or `detectMult == 0`) -/
+def computeInterval (interval detectMult pct : Nat) : Option Nat :=
+  if interval = 0 then none
+  else if detectMult = 0 then none
+  else
+    some (interval * (100 - clampPct pct (if detectMult = 1 then minJitterDetectMult1 else minJitter) maxJitter) / 100)
+
 /-! ### `shouldDiscard` -/
 
 /-- the fields of a BFD control packet that `shouldDiscard` looks at. -/
